@@ -26,8 +26,11 @@ from pathlib import Path
 VERIF = Path(os.environ.get("VERIF_ROOT") or Path(__file__).resolve().parents[1])
 REPO = Path(os.environ.get("VERIF_REPO", "/repo"))
 COQ = VERIF / "coq"
-EVID = VERIF / "evidence"
-REPLAYS = VERIF / "replays"
+# evidence and replays of a run against anything but /repo (tools/seedtest.py: a scratch worktree carrying a seeded change)
+# go to a scratch output directory, so that evidence/ only ever describes /repo itself
+_OUT = Path(os.environ["VERIF_OUT"]) if os.environ.get("VERIF_OUT") else VERIF
+EVID = _OUT / "evidence"
+REPLAYS = _OUT / "replays"
 SCRATCH_ROOT = VERIF / ".scratch"
 KNOWN = Path(os.environ.get("VERIF_KNOWN", str(VERIF / "known_findings.json")))
 PY = "/venv/bin/python"
@@ -349,8 +352,8 @@ class Run:
         return None
 
     def finish(self, coverage: dict, assumptions: list[str] | None = None) -> int:
-        REPLAYS.mkdir(exist_ok=True)
-        EVID.mkdir(exist_ok=True)
+        REPLAYS.mkdir(parents=True, exist_ok=True)
+        EVID.mkdir(parents=True, exist_ok=True)
         n_viol = 0
         known_hits = []
         lines = []
